@@ -4,6 +4,8 @@ import (
 	"context"
 	"fmt"
 	"net/netip"
+	"os"
+	"path/filepath"
 	"strings"
 	"sync"
 	"time"
@@ -403,6 +405,59 @@ func buildWorld(r *vkit.Run, dbKind string, round int, tweak ...func(*stack.Opti
 			return nil, fmt.Errorf("storage was asked %d times, want 2 (full + partial)", stg.calls)
 		}
 		w.db = &recDB{inner: db, w: w}
+	case "restored":
+		// The final database contents go through a real file-cache round
+		// trip: a first profiledb.Default stores them after its full sync, a
+		// second one (whose storage is never asked) loads them on start-up, as
+		// after a restart of the service.
+		dir := os.Getenv("VERIF_SCRATCH")
+		if dir == "" {
+			dir = os.TempDir()
+		}
+		cachePath := filepath.Join(dir, fmt.Sprintf("c03-profiles-%d-%d.pb", os.Getpid(), round))
+		defer os.Remove(cachePath)
+		full := &profiledb.StorageProfilesResponse{SyncTime: time.Unix(1_700_000_000, 0)}
+		for id, p := range profs {
+			fp := cloneProfile(p)
+			fp.Deleted = w.Profs[id].Deleted
+			for _, d := range w.Devs {
+				if d.Prof != id {
+					continue
+				}
+				// A detached device's record is still delivered, but no profile
+				// lists it.
+				full.Devices = append(full.Devices, d.dev)
+				if d.State != stDetached {
+					fp.DeviceIDs = append(fp.DeviceIDs, d.ID)
+				}
+			}
+			full.Profiles = append(full.Profiles, fp)
+		}
+		conf := func(stg profiledb.Storage) *profiledb.Config {
+			return &profiledb.Config{
+				Logger: stack.Logger(), Storage: stg, ErrColl: &errColl{}, Metrics: profiledb.EmptyMetrics{},
+				CacheFilePath: cachePath, FullSyncIvl: 24 * time.Hour, FullSyncRetryIvl: time.Hour, ResponseSizeEstimate: 1024,
+			}
+		}
+		first, err := profiledb.New(conf(&scriptStorage{w: w, resps: []*profiledb.StorageProfilesResponse{full}}))
+		if err != nil {
+			return nil, err
+		}
+		if err = first.Refresh(context.Background()); err != nil {
+			return nil, fmt.Errorf("refresh before the restart: %w", err)
+		}
+		if fi, serr := os.Stat(cachePath); serr != nil || fi.Size() == 0 {
+			return nil, fmt.Errorf("no cache file was written: %v", serr)
+		}
+		stg2 := &scriptStorage{w: w}
+		second, err := profiledb.New(conf(stg2))
+		if err != nil {
+			return nil, err
+		}
+		if stg2.calls != 0 {
+			return nil, fmt.Errorf("the restored database asked the storage")
+		}
+		w.db = &recDB{inner: second, w: w}
 	default:
 		return nil, fmt.Errorf("db kind %q", dbKind)
 	}
